@@ -13,8 +13,9 @@ def main():
 	ctx.workdir = Path(spec['workdir'])
 	ctx.workdir.mkdir(parents=True, exist_ok=True)
 	rc = 0
-	import faulthandler
-	faulthandler.dump_traceback_later(int(os.environ.get('VERIF_DUMP_AFTER', '240')), repeat=False, file=sys.stderr)
+	if os.environ.get('VERIF_DUMP_AFTER'):     # debugging aid only: dumping frames while sys.monitoring is active crashed CPython 3.12.1 (SIGSEGV) in a long shard
+		import faulthandler
+		faulthandler.dump_traceback_later(int(os.environ['VERIF_DUMP_AFTER']), repeat=False, file=sys.stderr)
 	try:
 		ov = os.environ.get('VERIF_OVERLAY')
 		if ov:
